@@ -399,6 +399,68 @@ def gro_pdb_partition(fmt: int, n: int, a: int, b: int, cell: bool) -> bool:
     return inc == one and inc.count("MODEL ") == n and inc.count("CRYST1") == (1 if cell else 0)
 
 
+def pdb_refusal_atomic(k: int, reason: int, cell: bool, after: bool) -> bool:
+    """
+    pre: 0 <= k <= 2 and 0 <= reason <= 3
+    post: __return__
+    """
+    # one write from any state (k models already written): a call that is refused (wrong number of positions, NaN, infinity, b-factor out
+    # of range) raises and leaves the text as it was; the file then continues as if the refused call had not happened
+    import mdtraj.formats.pdb.pdbfile as _pdb
+    from mdtraj.core import element as _el
+    from mdtraj.core.topology import Topology
+    k, reason = conc(k, 0, 2), conc(reason, 0, 3)
+    _pdb.print = lambda *x, file=None, **kw: file.write(" ".join(str(v) for v in x) + "\n")
+    top = Topology()
+    ch = top.add_chain()
+    r = top.add_residue("ALA", ch)
+    for i in range(NA):
+        top.add_atom("C%d" % i, _el.carbon, r)
+
+    def fresh():
+        fh = io.StringIO()
+        f = object.__new__(_pdb.PDBTrajectoryFile)
+        f._open, f._mode, f._file, f._header_written, f._footer_written, f._last_topology = True, "w", fh, False, False, None
+        return f, fh
+
+    def good(f, i):
+        kw = dict(unitcell_lengths=(50.0, 60.0, 70.0), unitcell_angles=(90.0, 90.0, 90.0)) if cell else {}
+        f.write(frames(i, 1)[0], top, modelIndex=i, **kw)
+    f, fh = fresh()
+    for i in range(k):
+        good(f, i)
+    before = fh.getvalue()
+    bad = frames(k, 1)[0].astype(np.float64)
+    kw = dict(unitcell_lengths=(50.0, 60.0, 70.0), unitcell_angles=(90.0, 90.0, 90.0)) if cell else {}
+    if reason == 0:
+        bad = bad[:1]
+    elif reason == 1:
+        bad[0, 0] = np.nan
+    elif reason == 2:
+        bad[1, 2] = np.inf
+    else:
+        kw["bfactors"] = [0.5, 100.0]
+    try:
+        f.write(bad, top, modelIndex=k, **kw)
+        return False
+    except ValueError:
+        pass
+    if k > 0 and fh.getvalue() != before:
+        return False
+    if "MODEL" in fh.getvalue()[len(before):] or "ATOM" in fh.getvalue()[len(before):]:       # (the very first call may already have written the header)
+        return False
+    if after:
+        good(f, k)
+        g, gh = fresh()
+        for i in range(k + 1):
+            good(g, i)
+        if fh.getvalue() != gh.getvalue():
+            return False
+        if fh.getvalue().count("MODEL ") != k + 1 or fh.getvalue().count("ENDMDL") != k + 1:
+            return False
+    return True
+
+
 def mdcrd_ragged_box(k: int, hb: bool, m: int) -> bool:
     """
     pre: 1 <= k <= 2 and 1 <= m <= 2
